@@ -71,6 +71,10 @@ func (r *RTPBuffer) Add(packet *RetainablePacket) {
 			r.packets[idx] = nil
 		}
 		r.highestAdded = seq
+	} else if r.highestAdded-seq >= r.size {
+		// older than the window: its slot holds a newer packet that is still
+		// inside the window and must stay retrievable.
+		return
 	}
 
 	idx := seq % r.size
